@@ -315,6 +315,13 @@ type Ctx struct {
 	held     []heldResult
 	curCase  *Case
 	Scratch  map[string]interface{} // per-shard caches owned by monitors
+
+	// interleaved re-execution (see Do)
+	recent  []*Case
+	doSeq   int
+	wrapB   *Case // set while an earlier case is re-run after wrapB
+	wrapA   *Case
+	Reruns  int64
 }
 
 func NewCtx(p *Property, tier string, seed uint64, shard, n int, j *Journal) *Ctx {
@@ -464,6 +471,14 @@ func (c *Ctx) Inconclusive(s string) { c.rep.Inconcl = append(c.rep.Inconcl, s) 
 // Fail records a violation. Only the first witness per (oracle,target,signature)
 // is kept; later ones are counted.
 func (c *Ctx) Fail(k *Case, signature, detail string) {
+	if c.wrapA != nil {
+		// a case that passed when it ran first complains when re-run after another one
+		jb, _ := json.Marshal(c.wrapB)
+		ja, _ := json.Marshal(c.wrapA)
+		k = &Case{Oracle: AfterOther, Target: c.wrapA.Target, S: []string{string(jb), string(ja)}}
+		signature = "after-other-call:" + signature
+		detail = fmt.Sprintf("case A (%s on %s) passed when it ran first; re-run after case B (%s on %s) it reports: %s", c.wrapA.Oracle, c.wrapA.Target, c.wrapB.Oracle, c.wrapB.Target, detail)
+	}
 	v := &Violation{Property: c.Prop.ID, Oracle: k.Oracle, Target: k.Target,
 		Signature: signature, Detail: detail, Unit: c.unit, Seed: c.Seed}
 	key := v.Key()
@@ -530,10 +545,109 @@ func PanicClass(r interface{}) string {
 
 // Do journals the case and runs its oracle under recover(). A panic escaping
 // the oracle is a violation attributed to the first library frame.
+// AfterOther names the built-in composite oracle: S = [JSON of case B, JSON of case A].
+const AfterOther = "after-other"
+
+func caseSize(k *Case) int {
+	n := 8 * len(k.I)
+	for _, b := range k.B {
+		n += len(b)
+	}
+	for _, s := range k.S {
+		n += len(s)
+	}
+	return n
+}
+
+func copyCase(k *Case) *Case {
+	cp := *k
+	cp.B = nil
+	for _, b := range k.B {
+		cp.B = append(cp.B, append([]byte(nil), b...))
+	}
+	cp.I = append([]int64(nil), k.I...)
+	cp.S = append([]string(nil), k.S...)
+	return &cp
+}
+
+func (c *Ctx) interleaved(oracle string) bool {
+	for _, o := range c.Prop.Interleave {
+		if o == oracle {
+			return true
+		}
+	}
+	return false
+}
+
+// afterOther replays a composite case: B, then A under the wrapper.
+func afterOther(c *Ctx, k *Case) {
+	if len(k.S) != 2 {
+		c.Inconclusive("malformed after-other case")
+		return
+	}
+	var b, a Case
+	if json.Unmarshal([]byte(k.S[0]), &b) != nil || json.Unmarshal([]byte(k.S[1]), &a) != nil {
+		c.Inconclusive("malformed after-other case")
+		return
+	}
+	// B then A — the state A's own first run left behind was long gone when the pair
+	// was found; if that does not reproduce it, A, B, A
+	n := len(c.rep.Violations)
+	c.runOne(&b)
+	c.rep.Violations = c.rep.Violations[:n] // B by itself is not what is judged here
+	c.wrapB, c.wrapA = &b, &a
+	c.runOne(&a)
+	c.wrapB, c.wrapA = nil, nil
+	if len(c.rep.Violations) > n {
+		return
+	}
+	c.runOne(&a)
+	c.runOne(&b)
+	c.rep.Violations = c.rep.Violations[:n]
+	c.wrapB, c.wrapA = &b, &a
+	c.runOne(&a)
+	c.wrapB, c.wrapA = nil, nil
+}
+
+// Do journals and runs one case. For oracles listed in Property.Interleave it
+// also does *interleaved re-execution*: every fourth such case B is followed by
+// a re-run of an earlier case A (one of the last eight that passed). A is a
+// deterministic function of its case, so it must pass again; if it complains
+// now, something B left behind in the library changed A's outcome (a memo keyed
+// by part of the input, a recycled buffer, a counter). The violation carries the
+// pair (B, A) as its replayable case.
 func (c *Ctx) Do(k *Case) {
+	before := c.rep.Counters["violating_cases"]
+	nInc := len(c.rep.Inconcl)
+	c.runOne(k)
+	if c.Replay || c.wrapA != nil || !c.interleaved(k.Oracle) || caseSize(k) > 4096 {
+		return
+	}
+	passed := c.rep.Counters["violating_cases"] == before && len(c.rep.Inconcl) == nInc
+	c.doSeq++
+	if c.doSeq%4 == 0 && len(c.recent) > 0 {
+		a := c.recent[(c.doSeq/4)%len(c.recent)]
+		c.wrapB, c.wrapA = k, a
+		c.runOne(a)
+		c.wrapB, c.wrapA = nil, nil
+		c.Reruns++
+		c.rep.Counters["interleaved_reruns"]++
+	}
+	if passed {
+		c.recent = append(c.recent, copyCase(k))
+		if len(c.recent) > 8 {
+			c.recent = c.recent[1:]
+		}
+	}
+}
+
+func (c *Ctx) runOne(k *Case) {
 	c.J.Write(k)
 	c.curCase = k
 	f := c.Prop.Oracles[k.Oracle]
+	if k.Oracle == AfterOther {
+		f = afterOther
+	}
 	if f == nil {
 		panic("unknown oracle " + k.Oracle)
 	}
@@ -657,6 +771,7 @@ type Property struct {
 	Shards int
 	// Post runs in the driver after all shards finished (race-log parsing etc.).
 	Post func(pi *PostInfo) (vios []*Violation, inconclusive []string)
+	Interleave []string // oracles whose cases take part in interleaved re-execution (cheap, self-contained per case)
 }
 
 // PostInfo is what a driver-side post-processor sees.
